@@ -117,6 +117,8 @@ struct Transport::Impl
   {
     std::condition_variable cv;
     bool done{false};
+    bool abandoned{false}; // connectSync timed out and is closing the session; the entry
+                           // stays registered only to suppress the global callbacks
     ConnectResult result{ConnectResult::err(TransportErrorInfo{TransportError::Timeout, "pending"})};
   };
   std::mutex syncMutex;
@@ -317,6 +319,15 @@ struct Transport::Impl
           auto it = pendingConnects.find(sid);
           if (it != pendingConnects.end())
           {
+            if (it->second->abandoned)
+            {
+              // Late completion: the connectSync caller already timed out and has
+              // issued (or is about to issue) engine->close(sid). Nobody will ever
+              // receive this sid, so swallow the onConnect AND keep the entry — the
+              // onClose that follows the close must still find it, or the global
+              // onClose would fire for a session the user never saw.
+              return;
+            }
             op = it->second;
             op->result = ConnectResult::ok(sid);
             op->done = true;
@@ -853,6 +864,9 @@ inline ConnectResult Transport::connectSync(const std::string &host, std::uint16
   // returning so connectGuard's dtor (the activeConnects decrement, a syncMutex-
   // guarded mutation) runs UNDER the lock — it destructs before `lk` because it
   // is declared after it.
+  // Mark the registration abandoned BEFORE releasing the lock: from here on a late
+  // onConnect must not consume (erase) the entry, see the onConnect handler.
+  op->abandoned = true;
   lk.unlock();
   _impl->engine->close(sid);
   lk.lock();
